@@ -335,7 +335,7 @@ class Ctx:
         tb = [
             "Coq 8.16.1 kernel (coqc, full .vo build; no native_compute; vm_compute only where a theorem says so)",
             "axioms reported by Print Assumptions for this property's theorems: " + (", ".join(axioms) if axioms else "none (closed under the global context)"),
-            "extraction: ExtrOcamlBasic only (bool, option, list, prod, unit, sumbool -> OCaml natives); no Extract Constant; every directive is in coq/extract/Extract.v",
+            "extraction: ExtrOcamlBasic (bool, option, list, prod, unit, sumbool -> OCaml natives) and ExtrOcamlString (ascii/string -> char/char list; used only for docstrings of the vocabulary model) plus `Extraction Blacklist String List Nat Int`; no Extract Constant of our own; every directive is in coq/extract/Extract.v",
             "OCaml 4.13.1 compiler and model/*.ml (parsing/printing around the extracted functions)",
             "correspondence check: generators, harness/*.cc drivers, canonicaliser and diff in checks/%s.py" % self.pid,
             "the C++ is modelled (hand-written Gallina mirror), not verified; libdw/libelf/libc behaviour is idealised",
